@@ -202,17 +202,7 @@ impl PoolImpl {
                 }
 
                 // potentially notify child waiting for safe-to-notar
-                if let Some((child_slot, child_hash)) =
-                    self.s2n_waiting_parent_cert.remove(&block_id)
-                    && let Some(output) = self
-                        .slot_state(child_slot)
-                        .notify_parent_certified(child_hash)
-                {
-                    match output {
-                        Either::Left(event) => self.send_votor_event(event).await,
-                        Either::Right((slot, hash)) => self.send_repair((slot, hash)).await,
-                    }
-                }
+                self.notify_children_parent_certified(&block_id).await;
 
                 // add block to parent-ready tracker, send any new parents to Votor.
                 let new_parents_ready = self.parent_ready_tracker.mark_notar_fallback(&block_id);
@@ -228,9 +218,14 @@ impl PoolImpl {
             }
             Cert::FastFinal(ff_cert) => {
                 info!("fast finalized slot {slot}");
-                let hash = ff_cert.block_hash().clone();
-                let finalization_event = self.finality_tracker.mark_fast_finalized((slot, hash));
+                let block_id = (slot, ff_cert.block_hash().clone());
+                let finalization_event = self
+                    .finality_tracker
+                    .mark_fast_finalized(block_id.clone());
                 self.handle_finalization(finalization_event).await;
+
+                // a fast-finalization certificate certifies the block as a parent, too
+                self.notify_children_parent_certified(&block_id).await;
             }
             Cert::Final(_) => {
                 info!("slow finalized slot {slot}");
@@ -242,6 +237,21 @@ impl PoolImpl {
         // send to votor for broadcasting
         let event = PoolEvent::CertCreated(cert);
         self.send_votor_event(event).await;
+    }
+
+    /// Tells the block waiting for a certificate of its parent `parent_id`, if any,
+    /// that the parent is now certified. This may make the child safe-to-notar.
+    async fn notify_children_parent_certified(&mut self, parent_id: &BlockId) {
+        if let Some((child_slot, child_hash)) = self.s2n_waiting_parent_cert.remove(parent_id)
+            && let Some(output) = self
+                .slot_state(child_slot)
+                .notify_parent_certified(child_hash)
+        {
+            match output {
+                Either::Left(event) => self.send_votor_event(event).await,
+                Either::Right((slot, hash)) => self.send_repair((slot, hash)).await,
+            }
+        }
     }
 
     /// Mutably accesses the [`SlotState`] for the given `slot`.
